@@ -21,7 +21,10 @@ def EndOK (tbl : Table) (cfg : Cfg) (stO : Option Tree) (en : Tree) : Prop :=
   (cfg.matchLabels = true → ∃ st, stO = some st ∧
       (infoOf tbl st).hasStartLabel = true ∧ (infoOf tbl en).hasEndLabel = true ∧
       (infoOf tbl st).startLabel = (infoOf tbl en).endLabel) ∧
-  (cfg.matchNames = true → endNameCheck cfg (stO.map (infoOf tbl)) (infoOf tbl en) = none)
+  (cfg.matchNames = true → endNameCheck cfg (stO.map (infoOf tbl)) (infoOf tbl en) = none) ∧
+  (endDoNames tbl.quirks cfg (stO.map (infoOf tbl)) (infoOf tbl en) = true →
+    endNameCheck { cfg with matchNames := true, strictNames := true }
+      (stO.map (infoOf tbl)) (infoOf tbl en) = none)
 
 def CfgOK (tbl : Table) (cfg : Cfg) (kids : List Tree) : Prop :=
   cfg.end_.isSome = true →
@@ -210,7 +213,23 @@ theorem matchedStep_E {cfg : Cfg} {startT : Option Tree} {sn : Option (Option Na
           split at heq
           · simp at heq
           · rename_i hname
-            refine ⟨hend.2, ?_, fun _ => hname⟩
+            have hn1 : cfg.matchNames = true →
+                endNameCheck cfg (startT.map (infoOf env.tbl)) (infoOf env.tbl t) = none := by
+              intro hm
+              have hq : endDoNames env.tbl.quirks cfg (startT.map (infoOf env.tbl))
+                  (infoOf env.tbl t) = false := by unfold endDoNames; simp [hm]
+              unfold endNameCheckQ at hname
+              rw [hq] at hname
+              simpa using hname
+            have hn2 : endDoNames env.tbl.quirks cfg (startT.map (infoOf env.tbl))
+                (infoOf env.tbl t) = true →
+                endNameCheck { cfg with matchNames := true, strictNames := true }
+                  (startT.map (infoOf env.tbl)) (infoOf env.tbl t) = none := by
+              intro hq
+              unfold endNameCheckQ at hname
+              rw [hq] at hname
+              simpa using hname
+            refine ⟨hend.2, ?_, hn1, hn2⟩
             intro hml
             unfold endLabelCheck at hlab
             rw [if_pos hml] at hlab
